@@ -1,12 +1,25 @@
-"""C19 child: run apply_to(loader + step + writer) over the fasta files of an
-input directory into a directory data store; the middle step kills the process
-when it is handed its (kill_at+1)-th input (serial execution: exactly kill_at
-records have then been written).
-argv: JSON {"indir","outdir","kill_at": int (-1 = never), "log": path, "bad": [ids producing NotCompleted],
-"idfn": bool (inputs are named sNN_raw.fasta and apply_to gets a user id_from_source mapping them to sNN)}"""
+"""C19 resume server: imports cogent3 ONCE, then for every job runs, each in a
+forked process of its own,
+  * an uninterrupted apply_to(loader + marker + writer) into a reference store,
+  * the same run into a second store, the process dying (os._exit) when the
+    marker stage is handed its (k+1)-th input (serial execution: exactly k
+    inputs have been dealt with: completed or not-completed record written),
+  * a re-run on that second store opened in append mode.
+The marker stage turns the inputs listed in `bad` into NotCompleted results.
+
+argv: JSON {"jobs": [{"n": int, "k": int, "bad": [i, ...], "mode1": "w"|"a", "store": "dir"|"sqlite",
+                      "idfn": bool, "pre": int}, ...]}
+   idfn: inputs are named sNN_raw.fasta and apply_to gets a user id_from_source mapping them to sNN
+   pre : number of records an EARLIER run had already completed in both stores
+stdout: one JSON line per job."""
 import json
 import os
+import shutil
+import sqlite3
 import sys
+import tempfile
+import time
+import traceback
 
 cfg = json.loads(sys.argv[1])
 
@@ -34,21 +47,144 @@ class marker:
         return seqs
 
 
-ins = open_data_store(cfg["indir"], suffix="fasta", mode="r")
-out = open_data_store(cfg["outdir"], suffix="fasta", mode="a")
-loader = get_app("load_unaligned", format="fasta", moltype="dna")
-writer = get_app("write_seqs", out, format="fasta")
-app = loader + marker(cfg["kill_at"], cfg["log"], cfg.get("bad", [])) + writer
-if cfg.get("idfn"):
+def idfn(src):
     from pathlib import Path
 
-    def idfn(src):
-        # a user supplied identifier function: input sNN_raw.fasta is the record sNN
-        name = Path(str(getattr(src, "unique_id", getattr(src, "source", src)))).name
-        # deliberately NOT idempotent on record names: 's03_raw.fasta' -> 's03', but 's03.fasta' -> 's03.fasta'
-        return name.split("_")[0]
+    # a user supplied identifier function: input sNN_raw.fasta is the record sNN
+    name = Path(str(getattr(src, "unique_id", getattr(src, "source", src)))).name
+    # deliberately NOT idempotent on record names: 's03_raw.fasta' -> 's03', but 's03.fasta' -> 's03.fasta'
+    return name.split("_")[0]
 
-    app.apply_to(ins, id_from_source=idfn, logger=False, show_progress=False)
-else:
-    app.apply_to(ins, logger=False, show_progress=False)
-print(json.dumps({"done": True}))
+
+def apply(indir, outpath, mode, kill_at, log, bad, use_idfn):
+    ins = open_data_store(indir, suffix="fasta", mode="r")
+    kw = {} if outpath.endswith(".sqlitedb") else {"suffix": "fasta"}
+    out = open_data_store(outpath, mode=mode, **kw)
+    loader = get_app("load_unaligned", format="fasta", moltype="dna")
+    writer = get_app("write_seqs", out, format="fasta")
+    app = loader + marker(kill_at, log, bad) + writer
+    if use_idfn:
+        app.apply_to(ins, id_from_source=idfn, logger=False, show_progress=False)
+    else:
+        app.apply_to(ins, logger=False, show_progress=False)
+    if hasattr(out, "close"):
+        out.close()
+
+
+def forked(fn, *args):
+    """run fn(*args) in a forked process; returns (exit code, error text)"""
+    errfile = tempfile.mktemp(prefix="c19r_err_")
+    pid = os.fork()
+    if pid == 0:
+        try:
+            COUNT[0] = 0
+            try:
+                fn(*args)
+            except BaseException:  # noqa: BLE001
+                with open(errfile, "w") as f:
+                    f.write(traceback.format_exc()[-1500:])
+                os._exit(3)
+            os._exit(0)
+        finally:
+            os._exit(70)
+    t0 = time.time()
+    rc = None
+    while time.time() - t0 < 240:
+        done, status = os.waitpid(pid, os.WNOHANG)
+        if done:
+            rc = os.waitstatus_to_exitcode(status)
+            break
+        time.sleep(0.003)
+    if rc is None:
+        os.kill(pid, 9)
+        os.waitpid(pid, 0)
+        rc = 124
+    err = None
+    if os.path.exists(errfile):
+        err = open(errfile).read()
+        os.remove(errfile)
+    return rc, err
+
+
+def snapshot(path):
+    """{record name: text}: completed records, not-completed records, md5 side files; logs excluded"""
+    snap = {}
+    if path.endswith(".sqlitedb"):
+        if not os.path.exists(path):
+            return snap
+        db = sqlite3.connect(path)
+        try:
+            for rid, data, done, md5 in db.execute("SELECT record_id, data, is_completed, md5 FROM results"):
+                if isinstance(data, bytes):
+                    data = data.decode("latin1")
+                key = str(rid) if done else f"not_completed/{rid}"
+                n = 1
+                while key in snap:  # duplicated rows stay visible
+                    n += 1
+                    key = f"{key}#{n}"
+                snap[key] = str(data)
+                snap[f"md5/{key}"] = str(md5)
+        finally:
+            db.close()
+        return snap
+    for root, _, files in os.walk(path):
+        for fn in files:
+            p = os.path.join(root, fn)
+            rel = os.path.relpath(p, path)
+            if rel.startswith("logs"):
+                continue
+            with open(p, "rb") as f:
+                snap[rel] = f.read().decode("latin1")
+    return snap
+
+
+def read_log(p):
+    return open(p).read().split() if os.path.exists(p) else []
+
+
+def make_inputs(d, n, use_idfn):
+    os.makedirs(d)
+    for i in range(n):
+        with open(os.path.join(d, f"s{i:02d}{'_raw' if use_idfn else ''}.fasta"), "w") as f:
+            f.write(f">a\nACGT{'A' * i}\n>b\nGGCC{'T' * i}\n")
+
+
+def one(job):
+    n, k, bad, mode1, store, use_idfn, pre = job["n"], job["k"], job.get("bad", []), job.get("mode1", "a"), \
+        job.get("store", "dir"), job.get("idfn", False), job.get("pre", 0)
+    bad = [f"s{i:02d}" for i in bad]
+    base = tempfile.mkdtemp(prefix="c19r_")
+    try:
+        ind = os.path.join(base, "in")
+        make_inputs(ind, n, use_idfn)
+        ext = ".sqlitedb" if store == "sqlite" else ""
+        ref, out = os.path.join(base, "ref" + ext), os.path.join(base, "out" + ext)
+        L = lambda name: os.path.join(base, name)  # noqa: E731
+        res = dict(job=job, machinery_error=None)
+        # uninterrupted reference (after the same earlier partial run, if any)
+        if pre:
+            forked(apply, ind, ref, mode1, pre, L("ref0.log"), bad, use_idfn)
+        rc, err = forked(apply, ind, ref, "a" if pre else mode1, -1, L("ref.log"), bad, use_idfn)
+        if rc != 0:
+            res["machinery_error"] = f"uninterrupted run failed rc={rc}: {err}"
+            return res
+        if pre:
+            forked(apply, ind, out, mode1, pre, L("out0.log"), bad, use_idfn)
+        rc1, err1 = forked(apply, ind, out, "a" if pre else mode1, k, L("out1.log"), bad, use_idfn)
+        if rc1 not in (0, 77):
+            res["machinery_error"] = f"interrupted run failed rc={rc1}: {err1}"
+            return res
+        after_kill = snapshot(out)
+        rc2, err2 = forked(apply, ind, out, "a", -1, L("out2.log"), bad, use_idfn)
+        res.update(killed=(rc1 == 77), after_kill=sorted(after_kill), first_run=read_log(L("out1.log")),
+                   processed_resume=read_log(L("out2.log")), order=read_log(L("ref0.log")) + read_log(L("ref.log")),
+                   final=snapshot(out), uninterrupted=snapshot(ref),
+                   resume_error=(None if rc2 == 0 else f"rc={rc2}: {err2}"))
+        return res
+    finally:
+        shutil.rmtree(base, ignore_errors=True)
+
+
+for job in cfg["jobs"]:
+    sys.stdout.write(json.dumps(one(job)) + "\n")
+    sys.stdout.flush()
